@@ -16,9 +16,9 @@ import (
 
 var symNil = Sym("nil")
 
-func sStr(s string) Sx  { return L(Sym("s"), []byte(s)) }
-func sNum(v int64) Sx   { return L(Sym("n"), v) }
-func sBool(b bool) Sx   { return L(Sym("n"), b) }
+func sStr(s string) Sx        { return L(Sym("s"), []byte(s)) }
+func sNum(v int64) Sx         { return L(Sym("n"), v) }
+func sBool(b bool) Sx         { return L(Sym("n"), b) }
 func f32bits(f float32) int64 { return int64(math.Float32bits(f)) }
 
 // encoder run under recover(); ok=false on panic
@@ -201,7 +201,7 @@ func msgSx(m *rwp.OutboundMessage) Sx {
 }
 
 // ---- s-expression -> message
-func isNil(n *Node) bool { return n != nil && !n.IsList && n.Atom == "nil" }
+func isNil(n *Node) bool  { return n != nil && !n.IsList && n.Atom == "nil" }
 func nStr(n *Node) string { return string(n.Kids[1].Bytes()) }
 func i64(n *Node) int64 {
 	v := int64(0)
